@@ -36,7 +36,7 @@ package revision
 //@   props C18
 //@   nosafety
 //@   requires r != nil && r.leaderElection != nil && r.metricCli != nil && r.httpClient != nil
-//@   modifies *
+//@   modifies * ghost.http_failed ghost.http_status ghost.read_failed ghost.parse_failed
 //@   ensures [a-revision-only-from-a-complete-status-document] err == nil ==> !http_failed && http_status == 200 && !read_failed && !parse_failed
 
 // the shared fetch: sf_failed is a ghost copy of its error ("sf_failed := err != nil" at the return);
@@ -46,7 +46,7 @@ package revision
 //@   props C18
 //@   nosafety
 //@   requires r != nil
-//@   modifies *
+//@   modifies * ghost.sf_failed ghost.http_failed ghost.http_status ghost.read_failed ghost.parse_failed
 //@   assume_ensures [ghost-assignment] sf_failed == (err != nil)
 
 // a sync that could not obtain the leader's revision fails, and only a successful one touches the
@@ -56,5 +56,5 @@ package revision
 //@   nosafety
 //@   requires r != nil && r.leaderElection != nil && r.metricCli != nil && r.backend != nil
 //@   requires [a-new-request] !sf_failed
-//@   modifies *
+//@   modifies * ghost.sf_failed ghost.http_failed ghost.http_status ghost.read_failed ghost.parse_failed
 //@   ensures [a-failed-fetch-fails-the-sync] sf_failed ==> err != nil
